@@ -696,6 +696,10 @@ class Run:
             obs["time"] = m.time
             obs["read"] = [m.read(c) for c in cls]
             obs["plain"] = list(m.metrics())
+            if sid % 2 == 0:
+                # another reader asked for a *different* merged view first (reads are pure: one view must not colour another,
+                # whether or not the scope has completed)
+                list(m.metrics(merge=view_merge("first" if self.vm != "first" else "cat")))
             obs["view"] = list(m.metrics(merge=view_merge(self.vm)))
         except BaseException as exc:  # noqa: BLE001
             obs["error"] = type(exc).__name__
